@@ -46,11 +46,20 @@ type wlPure struct {
 	// ProcessRestart: additionally execute the first call of task 0 as the very
 	// first operation of a fresh OS process (restart.process) and compare.
 	ProcessRestart bool `json:"process_restart,omitempty"`
+	// SharedBuilder: every wgraph call of the run uses one
+	// WeightedAuthorizationModelGraphBuilder value instead of a fresh one.
+	SharedBuilder bool `json:"shared_builder,omitempty"`
 }
+
+// sharedBuilder is set for the duration of a run when the workload asks for it.
+var sharedBuilder *graph.WeightedAuthorizationModelGraphBuilder
 
 type firstOpRequest struct {
 	Input pInput `json:"input"`
 	Op    pOp    `json:"op"`
+	// sequence mode: all inputs and a list of calls, executed in order
+	Inputs []pInput `json:"inputs,omitempty"`
+	Ops    []pOp    `json:"ops,omitempty"`
 }
 
 // cmdFirstOp: worker firstop < request.json ; prints the op's result. The op
@@ -61,9 +70,42 @@ func cmdFirstOp() {
 		fmt.Fprintln(os.Stderr, "firstop:", err)
 		os.Exit(2)
 	}
+	if len(req.Ops) > 0 {
+		rin := make([]*rInput, len(req.Inputs))
+		for i := range req.Inputs {
+			rin[i] = realise(&req.Inputs[i])
+		}
+		out := make([]string, len(req.Ops))
+		for i, op := range req.Ops {
+			if op.In >= 0 && op.In < len(rin) {
+				out[i] = execOp(op, rin[op.In])
+			}
+		}
+		_ = json.NewEncoder(os.Stdout).Encode(out)
+		return
+	}
 	op := req.Op
 	op.In = 0
 	fmt.Print(execOp(op, realise(&req.Input)))
+}
+
+// processSequenceResults: the given calls executed one after the other as the
+// only thing a fresh OS process does (a sequential reference that no earlier
+// run of this worker process can have influenced).
+func processSequenceResults(inputs []pInput, ops []pOp) ([]string, error) {
+	req, _ := json.Marshal(&firstOpRequest{Inputs: inputs, Ops: ops})
+	cmd := exec.Command(os.Args[0], "firstop")
+	cmd.Stdin = bytes.NewReader(req)
+	cmd.Env = append(os.Environ(), "GORACE=exitcode=0 atexit_sleep_ms=0")
+	out, err := cmd.Output()
+	if err != nil {
+		return nil, err
+	}
+	var res []string
+	if err := json.Unmarshal(out, &res); err != nil {
+		return nil, err
+	}
+	return res, nil
 }
 
 func processRestartResult(in *pInput, op pOp) (string, error) {
@@ -204,7 +246,11 @@ func execOp(op pOp, r *rInput) (res string) {
 		}
 		return "dot: " + g.GetDOT() + " rev: " + rev.GetDOT() + " cycles: " + fmt.Sprint(g.GetCycles())
 	case "wgraph":
-		g, err := graph.NewWeightedAuthorizationModelGraphBuilder().Build(r.pm)
+		builder := sharedBuilder
+		if builder == nil {
+			builder = graph.NewWeightedAuthorizationModelGraphBuilder()
+		}
+		g, err := builder.Build(r.pm)
 		if err != nil {
 			// which of several applicable sentinel errors is returned may depend
 			// on the traversal order (not fixed by any statement): verdict only
@@ -320,6 +366,11 @@ func (c *pureCtx) check(cfg simrt.Config) ([]mismatch, simrt.Stats, string) {
 			}
 		}
 	}
+	sharedBuilder = nil
+	if wl.SharedBuilder {
+		sharedBuilder = graph.NewWeightedAuthorizationModelGraphBuilder()
+	}
+	defer func() { sharedBuilder = nil }()
 	// every run starts from a defined state of the process-global parser
 	// caches (cold), so that a run is a function of its workload and tape only
 	parser.VerifColdRestart()
@@ -348,6 +399,7 @@ func (c *pureCtx) check(cfg simrt.Config) ([]mismatch, simrt.Stats, string) {
 	// pristine references, computed after the faulted phase: cold restart,
 	// single caller, canonical schedule, fresh inputs
 	parser.VerifColdRestart()
+	sharedBuilder = nil // references use a fresh builder per call
 	refIn := make([]*rInput, len(wl.Inputs))
 	for i := range wl.Inputs {
 		refIn[i] = realise(&wl.Inputs[i])
@@ -376,6 +428,30 @@ func (c *pureCtx) check(cfg simrt.Config) ([]mismatch, simrt.Stats, string) {
 					class = "result.panic"
 				}
 				add(class, "task %d %s(input %d, opt=%v): %s", rs.task, rs.op.Kind, rs.op.In, rs.op.Opt, diffAt(want, rs.res))
+			}
+		}
+	}
+	if wl.ProcessRestart {
+		// every distinct call of the run, in a fresh process, one after the other
+		var ops []pOp
+		seen := map[string]bool{}
+		for _, t := range wl.Tasks {
+			for _, op := range t {
+				k := fmt.Sprintf("%s/%d/%v", op.Kind, op.In, op.Opt)
+				if valid(op) && !seen[k] {
+					seen[k] = true
+					ops = append(ops, op)
+				}
+			}
+		}
+		got, err := processSequenceResults(wl.Inputs, ops)
+		if err != nil || len(got) != len(ops) {
+			add("restart.process_failed", "the fresh process running the calls sequentially died: %v", err)
+		} else {
+			for i, op := range ops {
+				if want := refOf(op); got[i] != want {
+					add("restart.process_differs", "%s(input %d, opt=%v) in a fresh process: %s", op.Kind, op.In, op.Opt, diffAt(want, got[i]))
+				}
 			}
 		}
 	}
@@ -469,23 +545,30 @@ func mutateText(r *rng, s string) string {
 func attributeModel(r *rng, m *Model) {
 	mods := []string{"core", "wiki", "acl"}
 	files := []string{"core.fga", "wiki/a.fga", "acl.fga", "core/b.fga"}
-	for _, t := range m.Types {
-		if r.chance(80) {
-			t.Module = r.pick(mods)
-			t.File = r.pick(files)
+	// module and file are usually set together (that is what the merger
+	// produces) but they are independent fields: a module without a file and a
+	// file without a module are legal too
+	attr := func(p int) (string, string) {
+		if !r.chance(p) {
+			return "", ""
 		}
+		mod, file := r.pick(mods), r.pick(files)
+		switch r.intn(10) {
+		case 0:
+			file = ""
+		case 1:
+			mod = ""
+		}
+		return mod, file
+	}
+	for _, t := range m.Types {
+		t.Module, t.File = attr(80)
 		for _, rel := range t.Relations {
-			if r.chance(40) {
-				rel.Module = r.pick(mods)
-				rel.File = r.pick(files)
-			}
+			rel.Module, rel.File = attr(40)
 		}
 	}
 	for _, c := range m.Conds {
-		if r.chance(70) {
-			c.Module = r.pick(mods)
-			c.File = r.pick(files)
-		}
+		c.Module, c.File = attr(70)
 	}
 }
 
@@ -550,6 +633,7 @@ func genBroadWorkload(r *rng) *wlPure {
 		// keep runs short: a random two thirds of the calls
 		wl.Tasks = append(wl.Tasks, sh[:len(sh)*2/3])
 	}
+	wl.SharedBuilder = r.chance(50)
 	return wl
 }
 
@@ -643,6 +727,7 @@ func genPureWorkload(r *rng) *wlPure {
 		}
 	}
 	wl.ColdBefore = r.chance(50)
+	wl.SharedBuilder = r.chance(40)
 	return wl
 }
 
@@ -659,7 +744,7 @@ func (wl *wlPure) describe() string {
 			sb.WriteString(in.Text + "\n")
 		}
 	}
-	fmt.Fprintf(&sb, "warm history: %v cold restart before tasks: %v\n", wl.Warm, wl.ColdBefore)
+	fmt.Fprintf(&sb, "warm history: %v cold restart before tasks: %v shared weighted builder: %v\n", wl.Warm, wl.ColdBefore, wl.SharedBuilder)
 	for t, ops := range wl.Tasks {
 		fmt.Fprintf(&sb, "task %d: %v\n", t, ops)
 	}
